@@ -47,7 +47,7 @@ INFO = {
    "Special-case table everywhere plus exactness/monotonicity/inverse laws; every string over the unit alphabets for all six URI functions incl. round trips.",
    "Trusted base: ref/mathspec, ref/uri; transcendental accuracy beyond stated tolerances outside."),
  "C14": ("finite table + graph BFS", "exhaustive enumeration of a finite spec table against the implementation, plus BFS over the real object graph",
-   "The space is finite (every (owner, property) pair of ES5 15.1-15.12 x 4 configurations) and is enumerated completely on every run; the reverse direction walks every object reachable from the global object. exhaustive=true.",
+   "The space is finite (every (owner, property) pair of ES5 15.1-15.12 x 4 configurations) and is enumerated completely on every run; the reverse direction walks every object reachable from the global object; distinguishing calls are repeated under four fixed non-UTC zones, prototype objects are probed for their kind, dynamic function shapes and copy/isolation histories are enumerated. exhaustive=true.",
    "Trusted base: ref/shape (spec transcription), the runtime's own Object.getOwnPropertyDescriptor / typeof / Object.prototype.toString for observation."),
  "C15": ("E1 full products", "exhaustive enumeration of boundary Go values of every kind and JS values through Set/Get/Export/To*/Call paths with identity and differential oracles",
    "Every boundary value of every Go kind, depth-bounded containers, all call paths; round-trip identity / in-language twin comparison.",
